@@ -18,12 +18,12 @@ Inductive case :=
 (* acceptReversed on a scripted listener *)
 | CAccept (id : bytes) (cancelled : bool) (arr : list arrival) (ores : acc_result) (oclosed : list peer)
 (* proxyRequestOnStream on a scripted broker stream: None = the broker conn was returned *)
-| CProxyFn (id : bytes) (rep : preply) (hello : greeting) (oerr : option att_err)
+| CProxyFn (id : bytes) (rep : preply) (hellos : list greeting) (oerr : option att_err)
 (* a whole standard-mode Dial against one scripted broker: the events pre, then
    xs and ys racing, then post *)
 | CStd (id : bytes) (pre xs ys post : list sev) (ores : option att_result) (ostat : list (peer * N))
 (* a whole proxied / nested Dial against one scripted broker (b = the broker connection) *)
-| CPrx (nested : bool) (id : bytes) (b : peer) (rep : preply) (hello : greeting)
+| CPrx (nested : bool) (id : bytes) (b : peer) (rep : preply) (hellos : list greeting)
        (ostreaming : bool) (oroute_set : bool) (ores : att_result) (obroker : N)
 (* Dial against several scripted brokers, attempts in launch order; any of the
    listed result schedules may have happened *)
@@ -174,11 +174,13 @@ Definition check_case (c : case) : bool :=
   | CAccept id cancelled arr ores oclosed =>
       let '(r, cl) := accept_reversed id cancelled arr in
       acc_result_eqb r ores && peers_eqb cl oclosed
-  | CProxyFn id rep hello oerr => opt_eqb att_err_eqb (proxy_request id rep hello) oerr
+  | CProxyFn id rep hellos oerr =>
+      let o := proxy_attempt_stream id 0 rep hellos in
+      opt_eqb att_err_eqb (match o_res o with Returned _ => None | Failed e => Some e end) oerr
   | CStd id pre xs ys post ores ostat =>
       existsb (fun z => std_ok id (pre ++ z ++ post) ores ostat) (inter xs ys)
-  | CPrx nested id b rep hello ostreaming oroute ores obroker =>
-      let o := proxy_attempt id b rep hello in
+  | CPrx nested id b rep hellos ostreaming oroute ores obroker =>
+      let o := proxy_attempt_stream id b rep hellos in
       att_result_eqb (o_res o) ores &&
       (predict (returned_of (o_res o)) (o_closed o) b =? obroker) &&
       ostreaming && Bool.eqb oroute nested
